@@ -15,7 +15,7 @@ theorem holder_final {t : Table} {rs : List Resolved} (H : Hyps t rs) {k : Bool}
   | none =>
     rw [hnid] at hlook
     simp only at hlook
-    obtain ⟨h1, _⟩ := holder_local H.wf H.loc hfo he her hel hnid
+    obtain ⟨h1, _⟩ := holder_local (d := d) H.wf hfo he her hnid
     refine ⟨⟨d.src, .name d.ref⟩, (h1 _).2 rfl, fun b' hb' => (h1 b').1 hb', ?_, ?_⟩
     · simp [finalRef, boundTo, hlook, code, normalOf]
     · simp [isTSType, hlook]
@@ -25,11 +25,13 @@ theorem holder_final {t : Table} {rs : List Resolved} (H : Hyps t rs) {k : Bool}
     obtain ⟨hiff, _⟩ := holder_import H.wf H.esm hfo he her hnid
     obtain ⟨b, hb, hu⟩ := pointed_unique H.wf H.esm H.link hfo he her hnid
     obtain ⟨R, hR, _, hbind, _⟩ := matchImport_spec H k hfo hnid
-    have hRb : R = normalOf t b := hbind b hb hu
+    have hRb : noLoc R = normalOf t b := hbind b hb hu
+    obtain ⟨hk, hsrc, href⟩ := noLoc_fields hRb
+    rw [normalOf_kind] at hk
     rw [hR] at hlook
     refine ⟨b, (hiff b).2 hb, fun b' hb' => hu b' ((hiff b').1 hb'), ?_, ?_⟩
-    · simp [finalRef, boundTo, hlook, hRb, normalOf_kind, code]
-    · simp [isTSType, hlook, hRb, normalOf_kind]
+    · simp [finalRef, boundTo, hlook, hk, hsrc, href, code]
+    · simp [isTSType, hlook, hk]
 
 /-- the three-way correspondence between `ResolveExport(m, a)` and the entry of `a` in `ResolvedExports[m]` -/
 theorem resolvedExports_core {t : Table} {rs : List Resolved} (H : Hyps t rs) {k : Bool} {m : Nat} (hm : m < t.length)
